@@ -137,6 +137,18 @@ def valid_templates(tier="quick"):
     T.append(_mk("consumer_in_another_dyndep_file", [Variant("v0", st, defaults=["all"])], {"dd1.in": dd3e1, "dd2.in": dd3e2}, ops, [nb],
                  min(depth, 5), ["produced", "implicit-output"]))
 
+    # D3f: the consumer names the dyndep-supplied output in the manifest (an implicit input that no statement of the manifest
+    # produces) and has no other path to the producer: at -j1 it sits in the ready queue when the dyndep file is loaded
+    dd3f = dyndep_text([("z", ["extra"], [], False)])
+    st = [Stmt("dd", ex=["dd.in"], copy=True), Stmt("y", ex=["y.in"], im=["extra"]),
+          Stmt("z", ex=["z.in"], oo=["dd"], dyndep="dd", extra_outs=["extra"]), Stmt("all", ex=["y", "z"], phony=True)]
+    ops = [{"op": "edit", "path": "y.in", "label": "edit y.in"}, {"op": "edit", "path": "z.in", "label": "edit z.in"},
+           {"op": "touch", "path": "dd.in", "label": "touch dd.in"}]
+    nb = len(ops)
+    ops += [ninja_op(j=1), ninja_op(j=2), ninja_op(targets=["z"], j=1)]
+    T.append(_mk("consumer_declares_the_supplied_output", [Variant("v0", st, defaults=["all"])], {"dd.in": dd3f}, ops, [nb + 2, nb],
+                 min(depth, 5), ["produced", "implicit-output"]))
+
     # D3d: the statement also writes a plain depfile, and -- as compilers that produce module files do -- names all its outputs
     # in it, the dyndep-supplied one included
     dd3d = dyndep_text([("out", ["out.mod"], [], False)])
